@@ -29,6 +29,12 @@ def run_property(pid: str, prog: Program, tier: str, seed: int = 0):
 
 
 def main(argv=None) -> int:
+    if argv is None:
+        argv = sys.argv[1:]
+    if argv and argv[0] == "--self-check":
+        prog = Program.from_dir("/repo")
+        print(f"va: parsed {len(prog.modules)} modules, {len(prog.classes)} classes")
+        return 0
     ap = argparse.ArgumentParser()
     ap.add_argument("pid")
     ap.add_argument("--tier", default=os.environ.get("VERIF_TIER", "quick"), choices=["quick", "thorough"])
